@@ -135,6 +135,19 @@ func isFlagSet(name string) bool {
 // (exhaustive:false) and never decides a property.
 func (r *Run) Deadline() time.Time { return r.deadline }
 
+// Phase runs f with the soft deadline pulled in to the given fraction of the
+// whole budget (measured from the start of the run), then restores it. It lets
+// a check with several enumeration phases keep time for the later ones.
+func (r *Run) Phase(fraction float64, f func()) {
+	old := r.deadline
+	d := r.start.Add(time.Duration(float64(old.Sub(r.start)) * fraction))
+	if d.Before(old) {
+		r.deadline = d
+	}
+	f()
+	r.deadline = old
+}
+
 // Thorough reports the tier.
 func (r *Run) Thorough() bool { return r.Tier == "thorough" }
 
